@@ -243,6 +243,15 @@ def containsFrom (typed : Bool) (z : Int) : SeqOfSt → List Nat → SeqOfSt × 
     | (st', .comp (.val y)) => if y = z then (st', .bool true) else containsFrom typed z st' ks
     | (st', _) => (st', .libErr)
 
+/-- the encoder's walk over the object (`enumerate(value)`): lazy, it stops at the first component it
+    cannot encode -/
+def encIter (typed : Bool) : SeqOfSt → List Nat → SeqOfSt
+  | st, [] => st
+  | st, k :: ks =>
+    match getAt typed st (k : Int) true with
+    | (st', .comp (.val _)) => encIter typed st' ks
+    | (st', _) => st'
+
 /-- `list.count` / `list.index` / `==` compare with `==`; a placeholder or noValue raises -/
 def allVals : List Comp → Option (List Int)
   | [] => some []
@@ -359,8 +368,7 @@ def step (typed : Bool) (st : SeqOfSt) : SeqOfOp → SeqOfSt × Out
        (st, if vs.length ≠ cs.length then .bool false else eqItems vs cs))
   | .encode =>
     -- the encoder iterates the object (`enumerate(value)`), which may instantiate gaps
-    (match getMany typed st (List.range (len st)) with
-     | (st', _) => (st', .unit))
+    (encIter typed st (List.range (len st)), .unit)
 
 /-- abstract content: the list of element values of a value object -/
 def absList (st : SeqOfSt) : Option (List Int) :=
@@ -426,7 +434,8 @@ inductive RecOp
   | items                                 -- list(r.items())
   | pretty
   | eqTo (cs : List Comp)                 -- r == <fresh object whose slots are cs (holes and values)>
-  | encode
+  | encode (eager : Bool)                 -- der.encode(r); eager = the DER/CER SET encoder, which reads
+                                          -- every component before it encodes the first
 deriving DecidableEq, Repr, Inhabited
 
 namespace Rec
@@ -521,15 +530,17 @@ def eqItems : List Comp → List Comp → Out
 
 /-- the components the encoder reads (`SequenceEncoder._getComponents`): absent OPTIONAL/DEFAULT
     ones are not instantiated, absent mandatory ones are -/
-def encTouch (fields : List FK) : RecSt → List Nat → RecSt
+def encTouch (fields : List FK) (eager : Bool) : RecSt → List Nat → RecSt
   | st, [] => st
   | st, k :: ks =>
     match fields[k]? with
     | some .req =>
       let cur := (st.comps.bind (fun l => slot l (k : Int))).getD .hole
       -- a mandatory component that is not a value is instantiated, then the encoder raises on it
-      if cur.isVal then encTouch fields st ks else (getAt fields st (k : Int) true).1
-    | _ => encTouch fields st ks
+      if cur.isVal then encTouch fields eager st ks
+      else if eager then encTouch fields eager (getAt fields st (k : Int) true).1 ks
+      else (getAt fields st (k : Int) true).1
+    | _ => encTouch fields eager st ks
 
 def step (fields : List FK) (st : RecSt) : RecOp → RecSt × Out
   | .setItemPos i a =>
@@ -615,8 +626,8 @@ def step (fields : List FK) (st : RecSt) : RecOp → RecSt × Out
     (match st.comps with
      | none => (st, .libErr)
      | some l => (st, if cs.length ≠ l.length then .bool false else eqItems cs l))
-  | .encode =>
-    if fields.length ≠ 0 then (encTouch fields st (List.range fields.length), .unit)
+  | .encode eager =>
+    if fields.length ≠ 0 then (encTouch fields eager st (List.range fields.length), .unit)
     else (match getMany fields st (List.range st.dyn) with | (st', _) => (st', .unit))
 
 /-- abstract content of one declared slot -/
@@ -717,7 +728,8 @@ def objDyn (cfg : EncCfg) (o : EncOpts) : List Comp → Except Err Bytes
 
 def encodeObj (cfg : EncCfg) (isSet : Bool) (fields : List FK) (st : RecSt) : Except Err Bytes :=
   let o := normOpts cfg {}
-  match st.comps with
+  -- the encoders read a schema object (`noValue`) like one whose components are all absent
+  match some (st.comps.getD []) with
   | none => .error .refused
   | some l =>
     let body : Except Err (Bytes × Bool) :=
@@ -1057,7 +1069,8 @@ def recOpOf : Sexp → Option RecOp
   | .list [.atom "items"] => some .items
   | .list [.atom "pretty"] => some .pretty
   | .list (.atom "eq" :: cs) => do pure (.eqTo (← cs.mapM compOf))
-  | .list [.atom "encode"] => some .encode
+  | .list [.atom "encode"] => some (.encode false)
+  | .list [.atom "encode", f] => do pure (.encode (← boolOf f))
   | _ => none
 
 def choiceOpOf : Sexp → Option ChoiceOp
